@@ -186,6 +186,13 @@ def run(tier, seed):
             bad += inst.bad
             info = dict(model=mname, k=k, dt=dt, backend=backend, opts={kk: (vv if not isinstance(vv, SpawnStack) else "explicit tree") for kk, vv in opts.items()}, ntraj=len(inst.trajs))
             roots = [t for t in inst.trajs if t._v["parent"] is None]
+            if isinstance(opts.get("spawn_stack"), list):
+                wantst = SpawnStack.from_quadrature(list(opts["spawn_stack"]), method=opts.get("quadrature", "gl"), mcsamples=opts.get("mcsamples", 1)).sample_stack
+                for root in roots:
+                    res.count("stack-built-from-options")
+                    if [node_lit(n) for n in root._v["stack0"]] != [node_lit(n) for n in wantst]:
+                        bad.append(dict(failed="a spawn stack built from quadrature sizes is the tensor product of those rules with the requested Monte-Carlo multiplicity (batch options %r: the trajectory runs with a different tree, e.g. first node %r instead of %r)"
+                                               % ({kk: vv for kk, vv in opts.items()}, {k_: v_ for k_, v_ in root._v["stack0"][0].items() if k_ != "children"}, {k_: v_ for k_, v_ in wantst[0].items() if k_ != "children"}), case=info)); break
             for root in roots:
                 rid = root._v["id"]
                 iw = inst.weights_dfs(rid)
